@@ -94,6 +94,20 @@ def check(run):
             sc.cfg = dict(zip(['newer', 'older', 'same', 'entry', 'root'], a))
             sc.answers = [rng.choice(['o1', 'o0', 'a1', 'a0', 'c', 'o1']) for _ in range(rng.randrange(0, 7))]
             sc.tag = 'product'
+            if len(scen) % 4 == 1:
+                # behind a remote doer the entry details (times to the nanosecond - the tree's files differ by 10 ns) cross the wire
+                sc.placement = ['LR', 'RL', 'RR'][(len(scen) // 4) % 3]
+                sc.tag = 'product-remote'
+            scen.append(sc)
+    # assignments that tell the three file cases apart (exactly one of newer / older / same withholds consent), behind remote doers: the
+    # files of the tree differ by 10 ns, so a side that loses time precision on the wire puts a file into the wrong case
+    for a3 in (('E', 'A', 'A'), ('S', 'A', 'A'), ('A', 'S', 'A'), ('A', 'E', 'A'), ('A', 'A', 'S'), ('A', 'A', 'E')):
+        for pl in ('LR', 'RL', 'RR'):
+            sc = sync_e2e.Scenario()
+            sc.src, sc.dest = everything_tree(False)
+            sc.outside = {'': {'k': 'dir'}}
+            sc.cfg = {'newer': a3[0], 'older': a3[1], 'same': a3[2], 'entry': 'A', 'root': 'A'}
+            sc.placement, sc.tag = pl, 'separating-remote'
             scen.append(sc)
     for rc_assign in itertools.product('PESA', repeat=2):     # root conflict: root x entry behaviours, all answers
         for ans in ([], ['o1'], ['o0'], ['c'], ['o1', 'o1'], ['o1', 'c'], ['o1', 'o0']):
@@ -105,9 +119,10 @@ def check(run):
             sc.tag = 'rootconflict'
             scen.append(sc)
     base = tempfile.mkdtemp(prefix='c03_', dir=vlib.CACHE)
+    fake = e2e.fake_ssh_dir(base)
     try:
         for sc in scen:
-            o = sync_e2e.run_scenario(sc, binary, jbin, base)
+            o = sync_e2e.run_scenario(sc, binary, jbin, base, fake_ssh=fake if 'R' in sc.placement else None)
             run.count('tag:' + sc.tag)
             run.count('exit:%s' % o.impl['exit'])
             run.count('prompts:%d' % min(o.impl['nprompts'], 5))
